@@ -479,6 +479,11 @@ func runCOSRaw(env *Env, sc *COS, dir string) {
 	if !bytes.Equal(got, want) {
 		env.Fail("bytes-from-peer-altered", "system", "Read returned %d bytes, the peer sent %d (first difference at %d)", len(got), len(want), firstDiff(got, want))
 	}
+	if werr == nil && peerGot == nil && len(sent) > 0 {
+		env.Res.Inconclusive = "the stand-in peer did not report what it received within the real-time limit"
+
+		return
+	}
 	if werr != nil {
 		env.Fail("write-failed", "system", "Write failed: %v", werr)
 	} else if !bytes.Equal(peerGot, sent) {
